@@ -5,6 +5,7 @@ import (
 	"encoding/xml"
 	"fmt"
 	"io"
+	"sort"
 	"strings"
 
 	"github.com/johannesboyne/gofakes3"
@@ -134,7 +135,11 @@ func execHTTP(s *drv.Server, o s3op) s3obs {
 		case "list-buckets":
 			var br drv.BucketsResult
 			if drv.ParseXML(resp.Body, &br) == nil {
-				ob.Names = br.Names()
+				// in the order of the answer: S3 lists buckets by name, and so must every backend
+				ob.Names = nil
+				for _, bb := range br.Buckets {
+					ob.Names = append(ob.Names, bb.Name)
+				}
 			}
 		case "multi-delete":
 			var dr drv.DeleteResult
@@ -197,7 +202,7 @@ func execGo(s *drv.Server, o s3op) (ob s3obs) {
 		for _, x := range bs {
 			ob.Names = append(ob.Names, x.Name)
 		}
-		ob.Names = sortedCopy(ob.Names)
+		// (order as returned, see execHTTP)
 		return ob
 	case "put":
 		ct, mw := c02Meta([]byte(o.Body), o.Tag)
@@ -345,8 +350,11 @@ func compareOutcome(o s3op, want model.Outcome, got s3obs, goAPI bool) (string, 
 			return "etag-mismatch", fmt.Sprintf("%s result ETag %s, model says \"%s\"", o.Kind, got.ETag, want.Obj.MD5)
 		}
 	case "list-buckets":
-		if !eqStrings(got.Names, want.Names) {
+		if !eqStrings(sortedCopy(got.Names), want.Names) {
 			return "listbuckets-mismatch", fmt.Sprintf("buckets %v, model says %v", got.Names, want.Names)
+		}
+		if !sort.StringsAreSorted(got.Names) {
+			return "listbuckets-unordered", fmt.Sprintf("buckets are listed as %v: not in ascending order of their names", got.Names)
 		}
 	case "multi-delete":
 		if o.Ver == "bogus" {
